@@ -9,14 +9,14 @@ namespace SquidModel.Acl.Ip
 
 def Item.width (it : Item) : Nat := if it.fam == Fam.v4 then 32 else 128
 
-/-- the number of zero bits of a contiguous IPv4 netmask with at least one bit set -/
-def netmaskBits (m : Nat) : Option Nat := (List.range 32).find? (fun k => m == 2 ^ 32 - 2 ^ k)
+/-- the number of zero bits of a contiguous IPv4 netmask -/
+def netmaskBits (m : Nat) : Option Nat := (List.range 33).find? (fun k => m == 2 ^ 32 - 2 ^ k)
 
-/-- the number of host bits a proper mask leaves: none, `/n` with `1 ≤ n ≤ width`, or a contiguous dotted IPv4 netmask -/
+/-- the number of host bits a proper mask leaves: none, `/n` with `n ≤ width`, or a contiguous dotted IPv4 netmask -/
 def Item.hostBits (it : Item) : Option Nat :=
   match it.mask with
   | .none => some 0
-  | .cidr n => if 1 ≤ n ∧ n ≤ it.width then some (it.width - n) else none
+  | .cidr n => if n ≤ it.width then some (it.width - n) else none
   | .dotted m => if it.fam == Fam.v4 then netmaskBits m else none
 
 /-- `a` with its `k` low bits cleared -/
@@ -30,13 +30,15 @@ def Item.hi (it : Item) (k : Nat) : Nat := embed it.fam (blockLo k (it.a2.getD i
 /-- the tokens the partial theorem speaks about -/
 structure Item.Regular (it : Item) (k : Nat) : Prop where
   bits : it.hostBits = some k
+  /-- the mask is not `/0` (squid turns a zero-length prefix into the all-ones "no mask" value) -/
+  nz : k < it.width
   r1 : it.a1 < 2 ^ it.width
   r2 : ∀ b, it.a2 = some b → b < 2 ^ it.width ∧ it.a1 ≤ b
   /-- a range written in IPv6 syntax does not end (after masking) at `::ffff:0.0.0.0` unless it starts there too
       (squid reads such a second address as "no second address") -/
   deg : it.fam = Fam.v6 → ∀ b, it.a2 = some b → blockLo k b = V4ANY → blockLo k it.a1 = V4ANY
 
-theorem netmaskBits_some {m k : Nat} (h : netmaskBits m = some k) : k < 32 ∧ m = 2 ^ 32 - 2 ^ k := by
+theorem netmaskBits_some {m k : Nat} (h : netmaskBits m = some k) : k < 33 ∧ m = 2 ^ 32 - 2 ^ k := by
   unfold netmaskBits at h
   have h1 := List.mem_of_find?_eq_some h
   have h2 := List.find?_some h
@@ -96,15 +98,19 @@ theorem decodeMask_spec {it : Item} {k : Nat} (h : it.Regular k) :
     · rename_i hn
       simp only [Option.some.injEq] at hb
       have hle : n ≤ 128 := by have := it.width_le; omega
+      have hnz := h.nz
       simp only [hle, if_true]
-      rw [applyCidr_clear hwid hn.1 hn.2 hb.symm]
+      rw [applyCidr_clear hwid (by omega) hn hb.symm]
       exact ⟨false, rfl⟩
     · simp at hb
   | dotted m =>
     rw [hm] at hb
     simp only at hb ⊢
     split at hb
-    · obtain ⟨hk32, hme⟩ := netmaskBits_some hb
+    · obtain ⟨hk33, hme⟩ := netmaskBits_some hb
+      rename_i hf4
+      have hk32 : k < 32 := by
+        have := h.nz; unfold Item.width at this; simpa [hf4] using this
       refine ⟨true, ?_⟩
       unfold decodeDotted
       have hc := cidr_netmask ⟨k, by omega⟩
@@ -256,11 +262,11 @@ def Item.regularB (it : Item) : Bool :=
   match it.hostBits with
   | none => false
   | some k =>
-    decide (it.a1 < 2 ^ it.width) &&
+    decide (k < it.width) && (decide (it.a1 < 2 ^ it.width) &&
     (match it.a2 with
      | none => true
      | some b => decide (b < 2 ^ it.width) && decide (it.a1 ≤ b) &&
-         (it.fam != Fam.v6 || blockLo k b != V4ANY || blockLo k it.a1 == V4ANY))
+         (it.fam != Fam.v6 || blockLo k b != V4ANY || blockLo k it.a1 == V4ANY)))
 
 theorem regular_of_regularB {it : Item} (h : it.regularB = true) : ∃ k, it.Regular k := by
   unfold Item.regularB at h
@@ -268,7 +274,8 @@ theorem regular_of_regularB {it : Item} (h : it.regularB = true) : ∃ k, it.Reg
   | none => simp [hb] at h
   | some k =>
     simp only [hb, Bool.and_eq_true, decide_eq_true_eq] at h
-    refine ⟨k, hb, h.1, ?_, ?_⟩
+    obtain ⟨hnz, h⟩ := h
+    refine ⟨k, hb, hnz, h.1, ?_, ?_⟩
     · intro b hb2
       have h2 := h.2
       simp only [hb2, Bool.and_eq_true, decide_eq_true_eq] at h2
